@@ -113,6 +113,19 @@ def post_explore(ctx, res, pids, opts):
                     rep("State.get_readable_disagrees_with_documented_layout",
                         {"row": i, "fields": p, "readable": {k: (v if not hasattr(v, "item") else v.item()) for k, v in rd.items() if k != "Address"}}, key)
                     break
+        # the host-number map is a MAPPING address -> row: a State built around the same mapping written down in
+        # another order is the same State (readable decoding and initial observation included)
+        if counts["state_roundtrips"] <= 12:
+            hnm_r = dict(reversed(list(hnm.items())))
+            st_r = State.from_numpy(x.flatten(), shape, hnm_r)
+            try:
+                same = (np.array_equal(st_r.get_initial_observation(False).tensor, st.get_initial_observation(False).tensor)
+                        and np.array_equal(st_r.get_initial_observation(True).tensor, st.get_initial_observation(True).tensor)
+                        and [(a, hv.vector.tolist()) for a, hv in sorted(st_r.hosts)] == [(a, hv.vector.tolist()) for a, hv in sorted(st.hosts)])
+            except Exception as e:
+                same = False
+            if not same:
+                rep("State_from_numpy_depends_on_the_order_in_which_the_host_number_map_is_written", {}, key)
         if x.any():
             counts["nontrivial"] += 1
         # ---- observations through step(): 1D is the row-major flattening of 2D
